@@ -67,6 +67,16 @@ func TestVerifC12(t *testing.T) {
 	for i := 0; i < hk.N(300, 6000); i++ {
 		gcs = append(gcs, gcase{rng.Bytes(32 * 4), chunks[rng.Intn(len(chunks))], "random"})
 	}
+	// a VERY long run of rejected candidates (no bound on redraws in the statement): 2^20+3 of them
+	{
+		nrej := 1<<20 + 3
+		st := bytes.Repeat([]byte{0xff}, 32*nrej)
+		for i := 0; i < nrej; i += 5 {
+			copy(st[32*i:], ref.B32(nm1)) // n-1 mixed in
+		}
+		st = append(append(st, ref.B32(randScalar(rng))...), rng.Bytes(32)...)
+		gcs = append(gcs, gcase{st, 0, "long-rejection-run"})
+	}
 	r.Sample(hk.D{"kind": "GenerateKey", "plan": gcs[7].plan, "stream": hk.Hex(gcs[7].stream)})
 	hk.Parallel(len(gcs), func(i int) {
 		g := gcs[i]
@@ -79,7 +89,11 @@ func TestVerifC12(t *testing.T) {
 		var priv, x, y []byte
 		var err error
 		p, msg, _, _ := hk.Try(func() { priv, x, y, err = GenerateKey(rd) })
-		d := hk.D{"stream": hk.Hex(g.stream[:model.Consumed]), "chunk": g.chunk, "plan": g.plan, "priv": hexOrNil(priv), "x": hexOrNil(x), "y": hexOrNil(y), "err": errStr(err),
+		shown := g.stream[:model.Consumed]
+		if len(shown) > 4096 {
+			shown = shown[len(shown)-4096:]
+		}
+		d := hk.D{"stream": hk.Hex(shown), "stream_bytes_consumed_by_model": model.Consumed, "chunk": g.chunk, "plan": g.plan, "priv": hexOrNil(priv), "x": hexOrNil(x), "y": hexOrNil(y), "err": errStr(err),
 			"model_d": hk.Hex(ref.B32(model.D)), "model_x": hk.Hex(ref.B32(model.Pub.X)), "model_y": hk.Hex(ref.B32(model.Pub.Y)), "consumed": rd.off, "model_consumed": model.Consumed}
 		cls := "plan=" + g.plan
 		switch {
@@ -275,6 +289,15 @@ func TestVerifC12(t *testing.T) {
 			ccs = append(ccs, cc{ref.B32(P.X), ref.B32(P.Y), "x-below-2^256-p-on-curve"})
 			enc := ref.B32(new(big.Int).Add(P.X, ref.SM2P))
 			ccs = append(ccs, cc{enc, ref.B32(P.Y), fmt.Sprintf("x+p:topword=%02x%02x%02x%02x", enc[0], enc[1], enc[2], enc[3])})
+		}
+	}
+	// coordinates from rare classes: x or y in [n, p), tiny y (fixture + lifted)
+	if sps, scls, serr := ref.SpecialPoints(); serr != nil {
+		r.Inconclusive("special-point fixture: " + serr.Error())
+	} else {
+		for i, P := range sps {
+			ccs = append(ccs, cc{ref.B32(P.X), ref.B32(P.Y), "coordinate-class:" + scls[i]})
+			ccs = append(ccs, cc{ref.B32(P.X), flip(ref.B32(P.Y), 255), "coordinate-class-off-curve:" + scls[i]})
 		}
 	}
 	for _, c := range ccs {
